@@ -33,9 +33,12 @@ SomeEq(a, b) == a.some = b.some /\ (a.some => a.v = b.v)
 \* the record becomes an event iff the collector's enabled() accepts its level and target
 RecordOk(r) ==
   LET ft == r.rec.via = "format_trace"
-      del == IF ft THEN CEnabled(cur, r.rec.level, r.rec.target) ELSE Delivered(cur, ign, r.rec.level, r.rec.target) IN
+      handed == IF ft THEN CEnabled(cur, r.rec.level, r.rec.target) ELSE Delivered(cur, ign, r.rec.level, r.rec.target)
+      \* a record written with the log! macros reaches the logger only up to the `log` crate's own maximum level, which the
+      \* installation set (with_max_level / init_with_filter; TRACE otherwise)
+      del == handed /\ (r.rec.via_macro => r.rec.level <= r.maxlog) IN
   /\ ~("panic" \in DOMAIN r)
-  /\ ~ft => r.enabled = del
+  /\ ~ft => r.enabled = handed
   /\ Len(r.events) = (IF del THEN 1 ELSE 0)
   /\ del => LET e == r.events[1] IN
             /\ e.is_log
